@@ -1,0 +1,45 @@
+//! Prefixed integers, Huffman strings and string literals (crate-private codecs).
+use bytes::{Buf, BufMut};
+
+use super::super::{prefix_int, prefix_string};
+
+/// `prefix_int::decode`: `Ok((flags, value))`, or the Debug text of the error
+pub fn prefix_int_decode<B: Buf>(size: u8, buf: &mut B) -> Result<(u8, u64), String> {
+    prefix_int::decode(size, buf).map_err(|e| format!("{:?}", e))
+}
+
+/// `prefix_int::encode`
+pub fn prefix_int_encode<B: BufMut>(size: u8, flags: u8, value: u64, buf: &mut B) {
+    prefix_int::encode(size, flags, value, buf)
+}
+
+/// `prefix_string::decode`
+pub fn prefix_string_decode<B: Buf>(size: u8, buf: &mut B) -> Result<Vec<u8>, String> {
+    prefix_string::decode(size, buf).map_err(|e| format!("{:?}", e))
+}
+
+/// `prefix_string::encode`
+pub fn prefix_string_encode<B: BufMut>(
+    size: u8,
+    flags: u8,
+    value: &[u8],
+    buf: &mut B,
+) -> Result<(), String> {
+    prefix_string::encode(size, flags, value, buf).map_err(|e| format!("{:?}", e))
+}
+
+/// Huffman decoding of a whole payload (`HpackStringDecode::hpack_decode`)
+pub fn huffman_decode(payload: &[u8]) -> Result<Vec<u8>, String> {
+    use prefix_string::HpackStringDecode;
+    payload
+        .to_vec()
+        .hpack_decode()
+        .collect::<Result<Vec<u8>, _>>()
+        .map_err(|e| format!("{:?}", e))
+}
+
+/// Huffman encoding of a whole string (`HpackStringEncode::hpack_encode`)
+pub fn huffman_encode(value: &[u8]) -> Result<Vec<u8>, String> {
+    use prefix_string::HpackStringEncode;
+    value.to_vec().hpack_encode().map_err(|e| format!("{:?}", e))
+}
